@@ -4,3 +4,4 @@ pub mod iso;
 pub mod report;
 pub mod v;
 pub mod reference;
+pub mod catalogue;
